@@ -494,6 +494,33 @@ Definition manifest_push_body (is_auth_client : bool) (bd : body) : body :=
   end.
 
 (* ------------------------------------------------------------------ *)
+(* A stateless specification of one send, for a body that can always be replayed and a context
+   that never ends: walk the script by index; answer i is read off the script, the body received
+   is the prefix the server reads of the WHOLE body, the pause is the policy's decision for
+   (i, answer i); stop at the first answer the policy does not want retried.  No request state,
+   no script threading, no trace accumulator. *)
+Fixpoint spec_run (p : policy) (bd : body) (sc : list beh) (t : Z) (i : nat) (fuel : nat)
+  : result * Z * list (Z * str) :=
+  match fuel with
+  | O => (RFuel, t, [])
+  | S fuel' =>
+    let bh := nth i sc default_beh in
+    let got := fst (take_body (b_read bh) (bdata bd)) in
+    let t1 := t + b_lat bh in
+    match generic_retry p (Z.of_nat i) (b_out bh) with
+    | DStop => (result_of_outcome (b_out bh), t1, [(t, got)])
+    | DFail => (fail_result (b_out bh), t1, [(t, got)])
+    | DPanic => (RPanic, t1, [(t, got)])
+    | DWait d =>
+      if d <? 0 then (result_of_outcome (b_out bh), t1, [(t, got)])
+      else let '(r, te, l) := spec_run p bd sc (t1 + d) (S i) fuel' in (r, te, (t, got) :: l)
+    end
+  end.
+
+Definition spec_send (p : policy) (bd : body) (sc : list beh) (t : Z) : result * Z * list (Z * str) :=
+  spec_run p bd sc t 0 (rt_fuel p).
+
+(* ------------------------------------------------------------------ *)
 (* Acceptor for observed exponential-backoff results (the jitter is random, the
    float64 arithmetic rounds): is [d] an admissible value of
    clamp(exp_backoff ...)?  Three-valued. *)
